@@ -565,5 +565,176 @@ class Main(pipeline.Stream):
             yield dict(case, srv="dispatcher")
 
 
+# ---------------------------------------------------------------------------------- registrations that change
+
+TREE_B = {"im": ["call", GN.DEEP], "data": ["data"],
+          "sub": ["obj", {"deep": ["call", GN.IM], "inner": ["obj", {"leaf": ["call", GN.OK]}]}]}
+TREE_C = {"im": ["call", GN.OK], "sub": ["obj", {"deep": ["call", GN.ECHO], "inner": ["obj", {"leaf": ["call", GN.DEEP]}]}],
+          "echo": ["call", GN.IM]}
+TREES = {"A": GN.TREE, "B": TREE_B, "C": TREE_C}
+SUBS = {"s1": {"deep": ["call", GN.OK], "inner": ["obj", {"leaf": ["call", GN.ECHO]}]},
+        "s2": {"deep": ["call", GN.ECHO], "inner": ["obj", {"leaf": ["call", GN.DEEP]}]}}
+REG_NAMES = ["im", "sub.deep", "sub.inner.leaf", "echo", "ok", "svc"]
+REG_CIDS = [GN.OK, GN.ECHO, GN.IM, GN.DEEP]
+RESULT_OF = {GN.OK: 42, GN.IM: {"im": [1, None]}, GN.DEEP: 0}
+
+
+def resolve(funcs, tree, name):
+    """the callable the registrations in force designate for `name` (None: no such method)"""
+    if name in funcs:
+        return funcs[name]
+    node = ["obj", tree] if tree is not None else None
+    for seg in name.split("."):
+        if node is None or node[0] != "obj" or seg.startswith("_") or seg not in node[1]:
+            return None
+        node = node[1][seg]
+    return node[1] if node is not None and node[0] == "call" else None
+
+
+class Registry(pipeline.Stream):
+    """'every callable registered on a server' over the life of one server: functions are registered and re-registered,
+    the instance is replaced, a member reached by a dotted name is replaced, between calls of the same names; every call must
+    reach the callable the registrations in force at that moment designate.  Each call is one Model/Dispatch.v case under
+    the registry of its moment."""
+    name = "registry"
+    model_imports = "Dispatch EndToEnd"
+    case_type = "list dcase"
+    check_fn = "registry_check"
+    shard = 150
+
+    def setup(self):
+        import jsonrpclib
+        import jsonrpclib.config as C
+        self.J, self.C = jsonrpclib, C
+
+    def _rand_steps(self, rng, n):
+        steps = []
+        for _ in range(n):
+            r = rng.random()
+            if r < 0.5:
+                name = rng.choice(REG_NAMES)
+                args = rand_args(rng, rng.randint(0, 2)) if rng.random() < 0.5 else ["pos", []]
+                steps.append(["call", name, args])
+            elif r < 0.65:
+                steps.append(["regf", rng.choice(["echo", "ok", "svc", "im", "sub.deep"]), rng.choice(REG_CIDS)])
+            elif r < 0.85:
+                steps.append(["reginst", rng.choice(sorted(TREES))])
+            else:
+                steps.append(["setsub", rng.choice(sorted(SUBS))])
+        return steps
+
+    def gen(self, tier, rng):
+        cases = []
+        for v in (1.0, 2.0):
+            # the documented histories: replace the instance / a member / a function between two calls of one name
+            for name in ("im", "sub.deep", "sub.inner.leaf"):
+                cases.append({"sver": v, "steps": [["reginst", "A"], ["call", name, ["pos", []]], ["reginst", "B"], ["call", name, ["pos", []]],
+                                                   ["reginst", "C"], ["call", name, ["pos", [1]] if name == "sub.deep" else ["pos", []]]]})
+                cases.append({"sver": v, "steps": [["reginst", "A"], ["call", name, ["pos", []]], ["setsub", "s1"], ["call", name, ["pos", []]],
+                                                   ["setsub", "s2"], ["call", name, ["pos", []]]]})
+            cases.append({"sver": v, "steps": [["regf", "svc", GN.OK], ["call", "svc", ["pos", []]], ["regf", "svc", GN.IM], ["call", "svc", ["pos", []]],
+                                               ["regf", "svc", GN.ECHO], ["call", "svc", ["kw", {"k": [1]}]]]})
+            cases.append({"sver": v, "steps": [["reginst", "A"], ["call", "im", ["pos", []]], ["regf", "im", GN.OK], ["call", "im", ["pos", []]],
+                                               ["reginst", "B"], ["call", "im", ["pos", []]]]})
+        for _ in range(120 if tier == "quick" else 2500):
+            cases.append({"sver": rng.choice([1.0, 2.0]), "steps": self._rand_steps(rng, rng.randint(3, 10))})
+        return cases
+
+    def run_impl(self, case):
+        dc = dcase(case["sver"], True)
+        dc["funcs"], dc["inst"] = {}, None
+        rt = K.Runtime(dc)
+        funcs, tree, inst = {}, None, [None]
+        calls = []
+        seen = []
+        orig = rt.disp._marshaled_dispatch
+
+        def recording(data, *a, **k):
+            r = orig(data, *a, **k)
+            seen.append((data, r))
+            return r
+        rt.disp._marshaled_dispatch = recording
+        proxy = self.J.ServerProxy("http://localhost/", transport=_Loopback(rt.disp), config=self.C.Config(version=case["sver"]))
+        try:
+            for st in case["steps"]:
+                if st[0] == "regf":
+                    rt.disp.register_function(rt.fns[st[2]], st[1])
+                    funcs[st[1]] = st[2]
+                elif st[0] == "reginst":
+                    tree = json.loads(json.dumps(TREES[st[1]]))
+                    inst[0] = rt._make_obj(tree, None)
+                    rt.disp.register_instance(inst[0])
+                elif st[0] == "setsub":
+                    if inst[0] is None:
+                        continue
+                    tree = dict(tree, sub=["obj", json.loads(json.dumps(SUBS[st[1]]))])
+                    inst[0].sub = rt._make_obj(tree["sub"][1], None)
+                else:
+                    n0, s0 = len(rt.events), len(seen)
+                    a = st[2]
+                    meth = getattr(proxy, st[1])
+                    out = outcome((lambda: meth(*a[1])) if a[0] == "pos" else (lambda: meth(**a[1])))
+                    with rt.lock:
+                        log = [e for (_, e) in rt.events[n0:]]
+                    calls.append({"name": st[1], "args": a, "out": out, "log": log, "exchange": seen[s0:],
+                                  "funcs": dict(funcs), "tree": None if tree is None else json.loads(json.dumps(tree))})
+        finally:
+            rt.close()
+        return {"calls": calls}
+
+    def oracle(self, case, obs):
+        for i, c in enumerate(obs["calls"]):
+            cid = resolve(c["funcs"], c["tree"], c["name"])
+            if cid is None or (cid != GN.ECHO and (c["args"][1] != [] and c["args"][1] != {})):
+                continue
+            pos = norm(c["args"][1]) if c["args"][0] == "pos" else []
+            kws = norm(c["args"][1]) if c["args"][0] == "kw" else {}
+            entered = [pos, kws]
+            where = "call %d of %r (functions %r, instance %s)" % (i, c["name"], sorted(c["funcs"]), "registered" if c["tree"] is not None else "none")
+            mine = [e for e in c["log"] if e[0] == "call"]
+            if len(mine) != 1 or mine[0][1] != cid or not same(mine[0][2], entered):
+                return ("C01:registered-callable-not-invoked", "%s: invocation log %r, the registrations in force designate callable %d" % (
+                    where, mine[:3], cid))
+            want = entered if cid == GN.ECHO else RESULT_OF[cid]
+            if c["out"][0] != "val" or not same(c["out"][1], norm(want)):
+                return ("C01:result-not-returned", "%s: returned %r, the callable returned %r" % (where, c["out"], want))
+        return None
+
+    def encode(self, case, obs):
+        terms = []
+        for c in obs["calls"]:
+            if len(c["exchange"]) != 1:
+                return None
+            body, text = c["exchange"][0]
+            dc = dcase(case["sver"], True)
+            dc["funcs"] = c["funcs"]
+            dc["inst"] = None if c["tree"] is None else {"dispatch": None, "attrs": c["tree"]}
+            o = {"raised": None, "text": text, "log": c["log"], "drained": []}
+            t = K.encode_case(dc, o, K.parse_outcome(self.J, body, self.C.Config(version=case["sver"])))
+            if t is None:
+                return None
+            # generated request ids are UUIDs: the model echoes whatever id the request carries
+            terms.append(t)
+        return G.g_list(terms)
+
+    def nontrivial(self, case, obs):
+        names = [c["name"] for c in obs["calls"]]
+        return len(obs["calls"]) >= 2 and len(set(names)) < len(names)
+
+    def kind(self, case, obs):
+        ks = sorted(set(st[0] for st in case["steps"]))
+        return "server v%s / %s" % (case["sver"], "+".join(ks))
+
+    def describe(self, case, obs):
+        return {"server_version": case["sver"], "steps": ser.to_json(case["steps"]),
+                "calls": [{"name": c["name"], "args": ser.to_json(c["args"]), "outcome": ser.to_json(c["out"]),
+                           "invocations": ser.to_json(c["log"][:4])} for c in obs["calls"]]}
+
+    def shrink(self, case):
+        st = case["steps"]
+        for i in range(len(st)):
+            yield dict(case, steps=st[:i] + st[i + 1:])
+
+
 def streams():
-    return [Main()]
+    return [Main(), Registry()]
